@@ -7,7 +7,7 @@ LEVEL = "exploration"
 RULE = ("network R-p1-J1-p2-J2-p3-T (+ parallel p4 so that closing p2 isolates nothing) with a demand pattern, 8 h, hourly steps, "
         "carrying each ONE of the features {none, time control, off-grid time control, clock-time control with start_clocktime, "
         "tank-level control pair, pressure control, rule on time, rule on level with ELSE, rule on a junction pressure with ELSE, rule true only in an early window, "
-        "rule with a <= time bound, leak window spanning the pause, PDD, TCV with a setting control, 30-min hydraulic step, a dead end that is isolated / reconnected / isolated again, a dead end cut off by the simulator's own status logic (emptied tank; wrong-way check valve) and reconnected by a bypass}; "
+        "rule with a <= time bound, rules and level controls in a model with start_clocktime 3 h / 22 h, leak window spanning the pause, PDD, TCV with a setting control, 30-min hydraulic step, a dead end that is isolated / reconnected / isolated again, a dead end cut off by the simulator's own status logic (emptied tank; wrong-way check valve) and reconnected by a bypass}; "
         "histories: EVERY subset of <= 1 (quick) / <= 3 (thorough) pause instants of the hourly grid x "
         "pickle round trip {no, after every pause} x {new simulator object per part}; thorough adds all pairs of features with "
         "every single pause and four double pauses, with and without pickling.  oracle: index of every continued part starts at the first hydraulic step after the pause, indices strictly "
@@ -28,6 +28,9 @@ def base():
 def feature(s, f):
     o = s["opts"]
     c = s["controls"]
+    if "+clock" in f:           # the same feature in a model that does not start at midnight
+        f, hrs = f.split("+clock")
+        o["clock"] = int(hrs) * H
     if f == "none":
         pass
     elif f == "time":
@@ -96,7 +99,8 @@ def feature(s, f):
 
 
 FEATURES = ["none", "time", "time_offgrid", "clock", "level_pair", "pressure", "rule_time", "rule_level_else", "rule_early", "rule_le",
-            "leak", "pdd", "tcv_setting", "hyd30", "reconnect", "rule_pressure", "tank_empties", "cv_deadend"]
+            "leak", "pdd", "tcv_setting", "hyd30", "reconnect", "rule_pressure", "tank_empties", "cv_deadend",
+            "rule_time+clock3", "rule_level_else+clock3", "rule_pressure+clock22", "level_pair+clock3", "rule_early+clock22"]
 
 
 def cases(tier):
@@ -117,7 +121,7 @@ def cases(tier):
         for f, g in itertools.combinations(FEATURES[1:], 2):
             if {f, g} & {"level_pair", "rule_level_else"} == {"level_pair", "rule_level_else"}:
                 continue
-            if f == "clock" or g == "clock" or f == "hyd30" or g == "hyd30":
+            if f == "clock" or g == "clock" or f == "hyd30" or g == "hyd30" or "+clock" in f or "+clock" in g:
                 continue
             for ps in [(k,) for k in grid] + [(2, 3), (1, 4), (3, 6), (4, 5)]:
                 for pk in (False, True):
